@@ -124,7 +124,7 @@ spec('inv_payload', {'p': PL}, Bool,
      'and len(enc_body(p)) + 4 <= 65535', opaque=True)
 # a chain: every payload fits; an SK payload in last position has been given its inner first type
 spec('inv_chain', {'ps': List(PL)}, Bool,
-     'forall(lambda i: inv_payload(ps[i]), 0, len(ps)) and sk_annotated(ps)')
+     'forall(lambda i: inv_payload(ps[i]), 0, len(ps)) and sk_annotated(ps)', opaque=True)
 
 # ---- 3.14 encrypted payload: IV | Enc(inner | padding | pad length) | ICV ----------------------------
 spec('padlen', {'n': Int}, Int, '15 - n % 16')
